@@ -167,20 +167,37 @@ theorem stepPacked_eq_stepDenoted [CommRing α] [BEq α] :
     · rfl
 
 theorem preconditionBlock_eq_denoted [CommRing α] [BEq α] (ops : List (AxisOp α)) (shape : List Nat)
-    (t : Nat → α) : preconditionBlock ops shape t = preconditionBlockDenoted ops shape t := by
+    (a : Array α) : preconditionBlock ops shape a = preconditionBlockDenoted ops shape a := by
   unfold preconditionBlock preconditionBlockDenoted
   rw [stepPacked_eq_stepDenoted]
+
+theorem rd_tab [Zero α] (n : Nat) (t : Nat → α) (k : Nat) (hk : k < n) : rd (tab n t) k = t k := by
+  simp [rd, tab, Array.getD, hk]
+
+/-- tabulating flat data does not change its `(d, n)` view -/
+theorem view_rd_tab [Zero α] (d n : Nat) (t : Nat → α) : view d n (rd (tab (d * n) t)) = view d n t := by
+  funext i j
+  simp only [view]
+  apply rd_tab
+  exact Nat.lt_of_lt_of_le (Nat.add_lt_add_left j.isLt _)
+    (by rw [← Nat.succ_mul]; exact Nat.mul_le_mul_right n i.isLt)
+
+/-- flat row-major data of a matrix, as the array `blockLoop` carries -/
+def flat [Zero α] {m n : Nat} (M : Mat α m n) : Array α := tab (m * n) (unview m n M)
+
+theorem view_rd_flat [Zero α] {m n : Nat} (M : Mat α m n) : view m n (rd (flat M)) = M := by
+  rw [flat, view_rd_tab, view_unview]
 
 /-- matrix gradient `G : m × n`, packed preconditioner on axis 0 -/
 theorem block_matrix_axis0 [CommRing α] [BEq α] {m n r : Nat} (h : r + 2 < m) (P : Nat → Nat → α)
     (G : Mat α m n) :
-    preconditionBlock [.packed r P, .roll] [m, n] (unview m n G) =
-      unview m n (if (lowRankUnpack h (ofIdx m (r + 2) P)).hasZeros then G
+    preconditionBlock [.packed r P, .roll] [m, n] (flat G) =
+      flat (m := m) (n := n) (if (lowRankUnpack h (ofIdx m (r + 2) P)).hasZeros then G
         else ((toM (denoteP h (ofIdx m (r + 2) P)))ᵀ * toM G)) := by
   rw [preconditionBlock_eq_denoted]
   simp only [preconditionBlockDenoted, blockLoop, size, List.cons_append, List.nil_append,
-    Mat.force_eq, view_unview, stepDenoted, dif_pos h]
-  refine congrArg (unview m n) ?_
+    view_rd_flat, view_rd_tab, view_unview, stepDenoted, dif_pos h]
+  refine congrArg (fun M : Mat α m n => flat M) ?_
   by_cases hz : (lowRankUnpack h (ofIdx m (r + 2) P)).hasZeros = true
   · simp only [hz]; rfl
   · simp only [hz]
@@ -191,13 +208,13 @@ theorem block_matrix_axis0 [CommRing α] [BEq α] {m n r : Nat} (h : r + 2 < m) 
 /-- matrix gradient `G : m × n`, packed preconditioner on axis 1 -/
 theorem block_matrix_axis1 [CommRing α] [BEq α] {m n r : Nat} (h : r + 2 < n) (P : Nat → Nat → α)
     (G : Mat α m n) :
-    preconditionBlock [.roll, .packed r P] [m, n] (unview m n G) =
-      unview m n (if (lowRankUnpack h (ofIdx n (r + 2) P)).hasZeros then G
+    preconditionBlock [.roll, .packed r P] [m, n] (flat G) =
+      flat (m := m) (n := n) (if (lowRankUnpack h (ofIdx n (r + 2) P)).hasZeros then G
         else (toM G * toM (denoteP h (ofIdx n (r + 2) P)))) := by
   rw [preconditionBlock_eq_denoted]
   simp only [preconditionBlockDenoted, blockLoop, size, List.cons_append, List.nil_append,
-    Mat.force_eq, view_unview, stepDenoted, dif_pos h]
-  refine congrArg (unview m n) ?_
+    view_rd_flat, view_rd_tab, view_unview, stepDenoted, dif_pos h]
+  refine congrArg (fun M : Mat α m n => flat M) ?_
   by_cases hz : (lowRankUnpack h (ofIdx n (r + 2) P)).hasZeros = true
   · simp only [hz]; rfl
   · simp only [hz]
